@@ -540,7 +540,7 @@ func classifyTx(rec *fw.Recorder, g *gen, m *model, users []*chain.Account, tx t
 }
 
 func cases(tier string, seed int64) []fw.Case {
-	n, l := 96, 250
+	n, l := 192, 250
 	if tier == "thorough" {
 		n, l = 1000, 500
 	}
